@@ -308,7 +308,9 @@ def apply_edits_as_markdown(
             p = Path(docx_path)
             output_path = str(p.parent / f"{p.stem}_markup.md")
 
-        # 4. Save as Markdown file
+        # 4. Save as Markdown file. Encode first: text that cannot be encoded (a lone surrogate from a JSON escape) must
+        # fail before the output file is opened and truncated.
+        result.encode("utf-8")
         with open(output_path, "w", encoding="utf-8") as f:
             f.write(result)
 
